@@ -29,6 +29,9 @@ fn check_one(spec: &TlSpec, rt: &RefTl, tl: &PTimeline, start: Option<&P>, t: f3
     if rt.k.interpolating_at(q) {
         acc.nontrivial += 1;
     }
+    if rt.d.interpolating_at(q) {
+        acc.nontrivial += 1;
+    }
     if want.a == RV::Ambiguous || want.k == RV::Ambiguous {
         acc.ambiguous_skipped += 1;
     }
@@ -73,8 +76,18 @@ pub fn run(run: Run) -> ! {
         |i, acc| {
             let (n, de, s0) = items[i];
             let c = count_t(n, 5);
-            for idx in s0..(s0 + CHUNK).min(c) {
-                let kfs = decode_t(n, &GRID5, idx, 1, 2, false).unwrap();
+            for idx2 in (s0 * 2)..((s0 + CHUNK).min(c) * 2) {
+                let idx = idx2 / 2;
+                let base = decode_t(n, &GRID5, idx, 1, 2, false).unwrap();
+                // second variant: the f64 property d in place of the f32 property a
+                let kfs = if idx2 % 2 == 1 {
+                    if n == nmax || !base.iter().any(|k| k.a.is_some()) {
+                        continue;
+                    }
+                    remap_a_to_d(&base)
+                } else {
+                    base
+                };
                 for (ti, th) in thetas.iter().enumerate() {
                     let spec = TlSpec { kfs: kfs.clone(), default_easing: de, timing: *th };
                     let rt = RefTl::new(&spec);
@@ -82,7 +95,7 @@ pub fn run(run: Run) -> ! {
                     let mut tls = tl.clone();
                     tls.start_with(&vs);
                     acc.timelines += 2;
-                    let skip_start = rt.a.dup_at_zero || rt.k.dup_at_zero;
+                    let skip_start = rt.a.dup_at_zero || rt.k.dup_at_zero || rt.d.dup_at_zero;
                     let rank = (n as u64) << 40 | idx << 8 | ti as u64;
                     for (t, ph) in &grids[ti] {
                         check_one(&spec, &rt, &tl, None, *t, ph, &init, rank, acc);
@@ -119,7 +132,7 @@ pub fn run(run: Run) -> ! {
     cov.insert("traces_validated_against_impl".into(), json!(acc.evals));
     cov.insert("evaluations".into(), json!(acc.evals));
     cov.insert("distinct_nontrivial".into(), json!(acc.nontrivial));
-    cov.insert("rule".into(), json!(format!("every keyframe list of size 0..={nmax} over positions {{0,1/4,1/2,3/4,1}} (ascending insertion, repeated positions included) x per-keyframe property subset in {{none,a,k,a+k}} x per-keyframe easing in {{none,x^2,1-(1-x)^2}} x default easing in {{Linear,OutBack}} x 6 timing configurations x {{no start_with, start_with(v*)}} x time grid tau (32 points per cycle, all phases, 1e6, f32::MAX); states = timelines built, transitions = Timeline::update calls, each compared with RefTimeScale.RefCss; a (case,property) is non-trivial when the position lies strictly between two defining keyframes with different values")));
+    cov.insert("rule".into(), json!(format!("every keyframe list of size 0..={nmax} over positions {{0,1/4,1/2,3/4,1}} (ascending insertion, repeated positions included) x per-keyframe property subset in {{none,a,k,a+k}} x per-keyframe easing in {{none,x^2,1-(1-x)^2}} x default easing in {{Linear,OutBack}} (and, below the largest size, the same lists with the f64 property d in place of a) x 6 timing configurations x {{no start_with, start_with(v*)}} x time grid tau (32 points per cycle, all phases, 1e6, f32::MAX); states = timelines built, transitions = Timeline::update calls, each compared with RefTimeScale.RefCss; a (case,property) is non-trivial when the position lies strictly between two defining keyframes with different values")));
     cov.insert("exhaustive".into(), json!(true));
     cov.insert("max_keyframes".into(), json!(nmax));
     cov.insert("ambiguous_positions_skipped".into(), json!(acc.ambiguous_skipped));
